@@ -107,7 +107,7 @@ theorem wrapperNd_refines_tables (km : KModel α) {h : Heap α} {parameters inpu
     (hs : h[states.sid]? = some sst) (ho : h[outputs.sid]? = some ost)
     (hso : states.sid ≠ outputs.sid) (hiN : i < N) (hiM : i < M) (hT : T ≤ T')
     {rd : RunDims} (hrd : runDims inputs states outputs = .ok rd)
-    (hK : ∀ p ins st r, km.run p ins st = .ok r →
+    (hK : ∀ p ins st r, ins.length = nI → (∀ s ∈ ins, s.length = T) → st.length = nS → km.run p ins st = .ok r →
       r.outputs.length ≤ nO ∧ (∀ ser ∈ r.outputs, ser.length ≤ T) ∧ r.states.length ≤ nS)
     (spec : ParamSpec) (lay : List (Nat × Nat)) (wf : SpecWF spec)
     (hSc : ∀ (j row sz : Nat), spec[j]? = some none → lay[j]? = some (row, sz) → row < rows)
@@ -142,7 +142,7 @@ theorem wrapperNd_refines_tables_layout (km : KModel α) {h : Heap α} {paramete
     (hs : h[states.sid]? = some sst) (ho : h[outputs.sid]? = some ost)
     (hso : states.sid ≠ outputs.sid) (hiN : i < N) (hiM : i < M) (hT : T ≤ T')
     {rd : RunDims} (hrd : runDims inputs states outputs = .ok rd)
-    (hK : ∀ p ins st r, km.run p ins st = .ok r →
+    (hK : ∀ p ins st r, ins.length = nI → (∀ s ∈ ins, s.length = T) → st.length = nS → km.run p ins st = .ok r →
       r.outputs.length ≤ nO ∧ (∀ ser ∈ r.outputs, ser.length ≤ T) ∧ r.states.length ≤ nS)
     (spec : ParamSpec) (dims : Nat → Nat) (wf : SpecWF spec)
     (hd : ∀ j k : Nat, spec[j]? = some (some k) → ∃ row, (tplRows dims spec 0)[k]? = some (row, 1) ∧
@@ -227,7 +227,7 @@ theorem runNd_refines_tables (km : KModel α) {h : Heap α} {parameters inputs s
     (hTb : ∀ i, i < N → ∀ (j k row sz : Nat), spec[j]? = some (some k) → lay[j]? = some (row, sz) →
       1 ≤ sz ∧ row + sz ≤ rows ∧ (ownLenZ (mat pst pb rows nSets) i (rowOf lay k)).toNat ≤ sz)
     (hNM : N ≤ M) (hT : T ≤ T')
-    (hK : ∀ p ins st r, km.run p ins st = .ok r →
+    (hK : ∀ p ins st r, ins.length = nI → (∀ s ∈ ins, s.length = T) → st.length = nS → km.run p ins st = .ok r →
       r.outputs.length ≤ nO ∧ (∀ ser ∈ r.outputs, ser.length ≤ T) ∧ r.states.length ≤ nS)
     {ss : List (List α)} {os : List (List (List α))}
     (hrun : runCells km spec lay (mat pst pb rows nSets) (cube ist ib nIn nI T) 0 (mat sst sb N nS)
@@ -387,9 +387,9 @@ def toyKm : KModel Int :=
   { name := "toy", init := fun _ => .ok [],
     run := fun p ins st => .ok { outputs := [((ins.headD []).take 3).map (· + p.foldl (· + ·) 0)], states := st.take 2 } }
 
-theorem toyFits : ∀ p ins st r, toyKm.run p ins st = .ok r →
+theorem toyFits : ∀ p ins st r, ins.length = 2 → (∀ s ∈ ins, s.length = 3) → st.length = 2 → toyKm.run p ins st = .ok r →
     r.outputs.length ≤ 1 ∧ (∀ ser ∈ r.outputs, ser.length ≤ 3) ∧ r.states.length ≤ 2 := by
-  intro p ins st r hr
+  intro p ins st r _ _ _ hr
   simp only [toyKm, Except.ok.injEq] at hr
   subst hr
   refine ⟨by simp, fun ser hs => ?_, by simp⟩
